@@ -255,6 +255,9 @@ def evaluator_for(prog: Program, cls_name: str, sc: StubContext, max_steps: int 
                        "map": lambda f, *xs: [f(*a) for a in zip(*[ev.iterate(x) for x in xs])]})
     import math as _math
     ev.modules.setdefault("math", {}).update({k: getattr(_math, k) for k in ("floor", "ceil", "trunc", "sqrt", "log", "log2", "pow", "fabs", "inf", "pi")})
+    import string as _string
+    ev.modules.setdefault("string", {}).update({k: getattr(_string, k) for k in ("ascii_letters", "ascii_lowercase", "ascii_uppercase", "digits",
+                                                                                  "hexdigits", "octdigits", "punctuation", "whitespace", "printable")})
     ev.modules.setdefault("itertools", {}).update({
         "filterfalse": lambda f, x: iter([y for y in ev.iterate(x) if not (f(y) if f is not None else y)]),
         "chain": lambda *xs: [y for x in xs for y in ev.iterate(x)],
